@@ -9,7 +9,8 @@ pub mod c08;
 
 #[cfg(not(kani))]
 pub const REPLAY: &[(&str, fn(&mut vsrc::ReplaySrc))] = &[
-    ("c08_admission", |s| c08::admission(s)),
+    ("c08_admission_poa", |s| c08::admission::<_, false>(s)),
+    ("c08_admission_genesis", |s| c08::admission::<_, true>(s)),
 ];
 
 pub fn noop() {}
